@@ -45,6 +45,7 @@ type vfProfile struct {
 	Expand     func(base *vfPlan, res *vfResult) []*vfPlan // derived plans enumerating the fault positions of a base history
 	Setup      func(w *vfWorld) // after build, before the plan (observers, extra state)
 	Final      func(w *vfWorld) // after the plan (history-level oracles)
+	Post       func(t *testing.T, plan *vfPlan, res *vfResult) // after the bubble: cross-run oracles (differential runs)
 }
 
 var vfProfiles = map[string]*vfProfile{}
@@ -182,6 +183,9 @@ func vfRunPlan(t *testing.T, plan *vfPlan, keepLog bool) (res *vfResult) {
 		cryptotest.SetGlobalRandom(t, uint64(plan.Seed)*2654435761+17)
 	}
 	defer func() {
+		if prof != nil && prof.Post != nil && res.Infra == "" {
+			prof.Post(t, plan, res)
+		}
 		res.HistHash = vfHash(strings.Join(res.Log, "\n"))
 		sort.Strings(res.Cells)
 		if prof != nil && prof.Nontrivial != nil {
